@@ -17,11 +17,14 @@ Proof.
     cbn in H. inversion H; subst. specialize (IH _ _ eq_refl). cbn. lia.
 Qed.
 
-Lemma parse_ascii_class_len s k r : parse_ascii_class s = Some (k, r) -> length r < length s.
+Lemma parse_ascii_class_len s nk r : parse_ascii_class s = Some (nk, r) -> length r < length s.
 Proof.
   unfold parse_ascii_class. destruct s as [|c s]; [discriminate|].
   destruct (N.eqb c c_colon); [|discriminate].
-  destruct (take_until_colon s) as [[name [|c1 [|c2 rest]]]|] eqn:E; try discriminate.
+  set (neg := match s with d :: _ => N.eqb d c_caret | [] => false end).
+  set (r1 := if neg then tl s else s).
+  assert (Hr1 : length r1 <= length s) by (subst r1; destruct neg; [destruct s; cbn; lia|lia]).
+  destruct (take_until_colon r1) as [[name [|c1 [|c2 rest]]]|] eqn:E; try discriminate.
   destruct (N.eqb c1 c_colon && N.eqb c2 c_rbr); [|discriminate].
   destruct (class_of_name name); [|discriminate].
   intros H. inversion H; subst. apply take_until_colon_len in E. cbn in *. lia.
@@ -38,27 +41,25 @@ Proof.
   - intros H. inversion H; subst. cbn. lia.
 Qed.
 
-Lemma class_loop_fuel : forall f1 f2 neg acc s,
-  length s < f1 -> length s < f2 -> class_loop f1 neg acc s = class_loop f2 neg acc s.
+Lemma leading_hyphens_len s : length (snd (leading_hyphens s)) <= length s.
 Proof.
-  induction f1 as [|f1 IH]; intros f2 neg acc s H1 H2; [lia|].
-  destruct f2 as [|f2]; [lia|].
-  destruct s as [|c r]; [reflexivity|].
-  cbn [class_loop]. cbn [length] in H1, H2.
-  destruct (N.eqb c c_lbr).
-  { destruct (parse_ascii_class r) as [[k rest]|] eqn:E; [|reflexivity].
-    apply parse_ascii_class_len in E. apply IH; lia. }
-  destruct (N.eqb c c_rbr); [reflexivity|].
-  destruct ((N.eqb c c_amp || N.eqb c c_hyphen || N.eqb c c_tilde) &&
-            match r with d :: _ => N.eqb d c | [] => false end); [reflexivity|].
-  destruct (class_prim (c :: r)) as [[lo s1]| |] eqn:E1; try reflexivity.
-  apply class_prim_len in E1. cbn [length] in E1.
-  destruct s1 as [|h s2]; [reflexivity|].
-  destruct (N.eqb h c_hyphen && _).
-  - destruct (class_prim s2) as [[hi s3]| |] eqn:E2; try reflexivity.
-    apply class_prim_len in E2. cbn [length] in E1.
-    destruct (N.leb lo hi); [|reflexivity]. apply IH; lia.
-  - apply IH; cbn [length] in *; lia.
+  induction s as [|c r IH]; [cbn; lia|].
+  cbn [leading_hyphens]. destruct (N.eqb c c_hyphen); [|cbn; lia].
+  destruct (leading_hyphens r) as [l t]. cbn [snd] in *. cbn. lia.
+Qed.
+
+Lemma class_open_len s neg acc s' : class_open s = RxOk (neg, acc, s') -> length s' <= length s.
+Proof.
+  unfold class_open. destruct s as [|c r]; [discriminate|].
+  set (s1 := if N.eqb c c_caret then r else c :: r).
+  assert (H1 : length s1 <= length (c :: r)) by (subst s1; destruct (N.eqb c c_caret); cbn; lia).
+  destruct s1 as [|c1 s1']; [discriminate|].
+  pose proof (leading_hyphens_len (c1 :: s1')) as H2.
+  destruct (leading_hyphens (c1 :: s1')) as [hy s2]. cbn [snd] in H2.
+  destruct s2 as [|d s3]; [discriminate|].
+  destruct (is_nil hy && N.eqb d c_rbr).
+  - destruct s3 as [|e s4]; [discriminate|]. intros H. inversion H; subst. cbn [length] in *. lia.
+  - intros H. inversion H; subst. cbn [length] in *. lia.
 Qed.
 
 Lemma class_loop_len : forall f neg acc s n r,
@@ -68,8 +69,12 @@ Proof.
   destruct s as [|c s']; [discriminate|].
   cbn [class_loop] in H.
   destruct (N.eqb c c_lbr).
-  { destruct (parse_ascii_class s') as [[k rest]|] eqn:E; [|discriminate].
-    apply parse_ascii_class_len in E. apply IH in H. cbn. lia. }
+  { destruct (parse_ascii_class s') as [[nk rest]|] eqn:E.
+    - apply parse_ascii_class_len in E. apply IH in H. cbn. lia.
+    - destruct (class_open s') as [[[neg' acc'] r']| |] eqn:Eo; try discriminate.
+      apply class_open_len in Eo.
+      destruct (class_loop f neg' acc' r') as [[[c0| |n0 items] r'']| |] eqn:El; try discriminate.
+      apply IH in El. apply IH in H. cbn. lia. }
   destruct (N.eqb c c_rbr).
   { inversion H; subst. cbn. lia. }
   destruct ((N.eqb c c_amp || N.eqb c c_hyphen || N.eqb c c_tilde) &&
@@ -84,26 +89,38 @@ Proof.
   - apply IH in H. cbn [length] in *. lia.
 Qed.
 
-Lemma leading_hyphens_len s : length (snd (leading_hyphens s)) <= length s.
+Lemma class_loop_fuel : forall f1 f2 neg acc s,
+  length s < f1 -> length s < f2 -> class_loop f1 neg acc s = class_loop f2 neg acc s.
 Proof.
-  induction s as [|c r IH]; [cbn; lia|].
-  cbn [leading_hyphens]. destruct (N.eqb c c_hyphen); [|cbn; lia].
-  destruct (leading_hyphens r) as [l t]. cbn [snd] in *. cbn. lia.
+  induction f1 as [|f1 IH]; intros f2 neg acc s H1 H2; [lia|].
+  destruct f2 as [|f2]; [lia|].
+  destruct s as [|c r]; [reflexivity|].
+  cbn [class_loop]. cbn [length] in H1, H2.
+  destruct (N.eqb c c_lbr).
+  { destruct (parse_ascii_class r) as [[nk rest]|] eqn:E.
+    - apply parse_ascii_class_len in E. apply IH; lia.
+    - destruct (class_open r) as [[[neg' acc'] r']| |] eqn:Eo; try reflexivity.
+      apply class_open_len in Eo.
+      rewrite (IH f2 neg' acc' r') by lia.
+      destruct (class_loop f2 neg' acc' r') as [[[c0| |n0 items] r'']| |] eqn:El; try reflexivity.
+      apply class_loop_len in El. apply IH; lia. }
+  destruct (N.eqb c c_rbr); [reflexivity|].
+  destruct ((N.eqb c c_amp || N.eqb c c_hyphen || N.eqb c c_tilde) &&
+            match r with d :: _ => N.eqb d c | [] => false end); [reflexivity|].
+  destruct (class_prim (c :: r)) as [[lo s1]| |] eqn:E1; try reflexivity.
+  apply class_prim_len in E1. cbn [length] in E1.
+  destruct s1 as [|h s2]; [reflexivity|].
+  destruct (N.eqb h c_hyphen && _).
+  - destruct (class_prim s2) as [[hi s3]| |] eqn:E2; try reflexivity.
+    apply class_prim_len in E2. cbn [length] in E1.
+    destruct (N.leb lo hi); [|reflexivity]. apply IH; lia.
+  - apply IH; cbn [length] in *; lia.
 Qed.
 
 Lemma parse_class_len s n r : parse_class s = RxOk (n, r) -> length r < length s.
 Proof.
-  unfold parse_class. destruct s as [|c s']; [discriminate|].
-  set (s1 := if N.eqb c c_caret then s' else c :: s').
-  assert (H1 : length s1 <= length (c :: s')) by (subst s1; destruct (N.eqb c c_caret); cbn; lia).
-  destruct s1 as [|c1 s1']; [discriminate|].
-  pose proof (leading_hyphens_len (c1 :: s1')) as H2.
-  destruct (leading_hyphens (c1 :: s1')) as [hy s2]. cbn [snd] in H2.
-  destruct s2 as [|d s3]; [discriminate|].
-  destruct (is_nil hy && N.eqb d c_rbr).
-  - destruct s3 as [|e s4]; [discriminate|].
-    intros H. apply class_loop_len in H. cbn [length] in *. lia.
-  - intros H. apply class_loop_len in H. cbn [length] in *. lia.
+  unfold parse_class. destruct (class_open s) as [[[neg acc] s']| |] eqn:Eo; try discriminate.
+  apply class_open_len in Eo. intros H. apply class_loop_len in H. lia.
 Qed.
 
 Lemma group_loop_fuel : forall f1 f2 cur alts s,
@@ -398,6 +415,16 @@ Proof.
   discriminate.
 Qed.
 
+Lemma class_name_no_caret name k t :
+  class_of_name name = Some k ->
+  match name ++ t with d :: _ => N.eqb d c_caret | [] => false end = false.
+Proof.
+  unfold class_of_name, class_names. cbn [assoc_str].
+  repeat (destruct (str_eqb name _) eqn:E;
+          [apply str_eqb_eq in E; subst; intros _; reflexivity|clear E]).
+  discriminate.
+Qed.
+
 Lemma class_item_ascii f neg acc name k t :
   class_of_name name = Some k ->
   class_loop (S f) neg acc (c_lbr :: c_colon :: name ++ c_colon :: c_rbr :: t) =
@@ -405,8 +432,9 @@ Lemma class_item_ascii f neg acc name k t :
 Proof.
   intros Hk. cbn [class_loop]. rewrite N.eqb_refl.
   unfold parse_ascii_class. rewrite N.eqb_refl.
+  rewrite (class_name_no_caret name k _ Hk).
   rewrite take_until_colon_app by (eapply class_name_no_colon; exact Hk).
-  rewrite !N.eqb_refl. cbn [andb]. rewrite Hk. reflexivity.
+  rewrite !N.eqb_refl. cbn [andb fst snd]. rewrite Hk. reflexivity.
 Qed.
 
 Lemma nonmulti_coll (v : str) : Nat.ltb 1 (length v) = false -> v = [] \/ exists c, v = [c].
@@ -553,7 +581,7 @@ Proof.
   destruct (s ++ c_rbr :: t) as [|h rest] eqn:E; [destruct Hhead|].
   destruct Hhead as (Hh1 & Hh2 & Hh3).
   cbn [rev app] in Hloop.
-  destruct compl; cbn [app]; unfold parse_class.
+  destruct compl; cbn [app]; unfold parse_class, class_open.
   - rewrite N.eqb_refl. cbn [leading_hyphens]. rewrite Hh1. rewrite Hh2. cbn [is_nil andb rev].
     exact Hloop.
   - rewrite Hh3. cbn [leading_hyphens]. rewrite Hh1. rewrite Hh2. cbn [is_nil andb rev].
@@ -735,6 +763,9 @@ Lemma bracket_fmt_shape b s :
    (existsb bitem_multi (b_items b) = true /\ b_complement b = false /\
     exists u, fmt_alts (b_items b) true = EOk u /\ s = [c_lpar; c_quest; c_colon] ++ u ++ [c_rpar]) \/
    (existsb bitem_multi (b_items b) = true /\ b_complement b = true /\
+    forallb bitem_multi (b_items b) = true /\ s = [c_dot]) \/
+   (existsb bitem_multi (b_items b) = true /\ b_complement b = true /\
+    forallb bitem_multi (b_items b) = false /\
     exists u, fmt_all bitem_fmt (filter (fun it => negb (bitem_multi it)) (b_items b)) = EOk u /\
               s = [c_lbr; c_caret] ++ u ++ [c_rbr])).
 Proof.
@@ -742,8 +773,10 @@ Proof.
   cbn [is_nil]. intros H. split; [discriminate|].
   destruct (existsb bitem_multi (it :: items)) eqn:Em; cbn [negb] in H.
   - destruct (b_complement b) eqn:Ec; cbn [negb] in H.
-    + right. right. repeat split; try reflexivity. unfold ebind in H.
-      destruct (fmt_all bitem_fmt _) as [u|e]; [|discriminate]. inversion H; subst. eauto.
+    + destruct (forallb bitem_multi (it :: items)) eqn:Ea.
+      * right. right. left. inversion H; subst. repeat split; reflexivity.
+      * right. right. right. repeat split; try reflexivity. unfold ebind in H.
+        destruct (fmt_all bitem_fmt _) as [u|e]; [|discriminate]. inversion H; subst. eauto.
     + right. left. repeat split; try reflexivity. unfold ebind in H.
       destruct (fmt_alts _ true) as [u|e]; [|discriminate]. inversion H; subst. eauto.
   - left. split; [reflexivity|]. unfold ebind in H.
@@ -768,8 +801,15 @@ Lemma is_nil_false_r {A} (l : list A) : l <> [] -> is_nil l = false.
 Proof. destruct l; [congruence|reflexivity]. Qed.
 
 (* one element of the pattern, read by the top-level loop *)
+Lemma filter_nonmulti_nonnil items :
+  forallb bitem_multi items = false -> filter (fun it => negb (bitem_multi it)) items <> [].
+Proof.
+  induction items as [|it items IH]; [discriminate|]. cbn [forallb filter].
+  destruct (bitem_multi it); cbn [negb andb]; [exact IH|discriminate].
+Qed.
+
 Lemma rx_atom a s :
-  atom_fmt a = EOk s -> closed_complement a = true ->
+  atom_fmt a = EOk s ->
   forall f1 f2 acc t,
     length (s ++ t) < f1 -> length t < f2 ->
     rx_loop f1 acc (s ++ t) =
@@ -778,7 +818,7 @@ Lemma rx_atom a s :
     | None => RxErr
     end.
 Proof.
-  intros Hfmt Hcl f1 f2 acc t H1 H2.
+  intros Hfmt f1 f2 acc t H1 H2.
   destruct f1 as [|f1]; [lia|].
   destruct a as [c| | |b]; cbn [atom_fmt] in Hfmt.
   - (* a literal character *)
@@ -797,7 +837,7 @@ Proof.
     cbn [node_of_atom]. unfold node_of_bracket.
     destruct (bracket_fmt_shape b s Hfmt) as (Hne & Hshape).
     rewrite (is_nil_false_r _ Hne).
-    destruct Hshape as [(Hm & u & Hu & ->) | [(Hm & Hc & u & Hu & ->) | (Hm & Hc & u & Hu & ->)]];
+    destruct Hshape as [(Hm & u & Hu & ->) | [(Hm & Hc & u & Hu & ->) | [(Hm & Hc & Ha & ->) | (Hm & Hc & Ha & u & Hu & ->)]]];
       rewrite Hm; cbn [negb].
     + cbn [app]. rewrite rx_loop_lbr. rewrite <- !app_assoc. cbn [app].
       rewrite (parse_class_items (b_items b) u Hne Hu (existsb_false_forallb _ _ Hm) (b_complement b) t).
@@ -809,11 +849,10 @@ Proof.
       destruct (all_some (map alt_of (b_items b))) as [l|]; [|reflexivity].
       cbn [omap]. apply rx_loop_fuel; [|exact H2].
       cbn [app length] in H1. rewrite !app_length in H1. cbn [length] in H1. lia.
-    + rewrite Hc. cbn [negb app].
-      cbn [closed_complement] in Hcl. rewrite Hc, Hm in Hcl. cbn [andb] in Hcl.
-      apply negb_true_iff in Hcl.
-      assert (Hne' : filter (fun it => negb (bitem_multi it)) (b_items b) <> []).
-      { intros E. rewrite E in Hcl. discriminate. }
+    + rewrite Hc, Ha. cbn [negb app]. rewrite rx_loop_dot.
+      apply rx_loop_fuel; [cbn [app length] in H1; lia|exact H2].
+    + rewrite Hc, Ha. cbn [negb app].
+      pose proof (filter_nonmulti_nonnil _ Ha) as Hne'.
       rewrite rx_loop_lbr. rewrite <- app_assoc. cbn [app].
       pose proof (parse_class_items _ u Hne' Hu (filter_nonmulti (b_items b)) true t) as Hpc.
       cbn [app] in Hpc. rewrite Hpc.
@@ -823,7 +862,7 @@ Proof.
 Qed.
 
 Lemma rx_atoms : forall atoms s,
-  fmt_all atom_fmt atoms = EOk s -> closed_complements atoms = true ->
+  fmt_all atom_fmt atoms = EOk s ->
   forall f acc t,
     length (s ++ t) < f ->
     rx_loop f acc (s ++ t) =
@@ -832,14 +871,13 @@ Lemma rx_atoms : forall atoms s,
     | None => RxErr
     end.
 Proof.
-  induction atoms as [|a atoms IH]; intros s Hfmt Hcl f acc t Hf.
+  induction atoms as [|a atoms IH]; intros s Hfmt f acc t Hf.
   - inversion Hfmt; subst. cbn [app map all_some rev]. apply rx_loop_fuel; [exact Hf|lia].
   - destruct (fmt_all_cons _ _ _ _ Hfmt) as (s1 & s2 & H1 & H2 & ->).
-    unfold closed_complements in Hcl. cbn [forallb] in Hcl. apply andb_true_iff in Hcl as [Ha Hcl].
     rewrite <- app_assoc in *.
-    rewrite (rx_atom a s1 H1 Ha f (S (length (s2 ++ t))) acc (s2 ++ t) Hf ltac:(lia)).
+    rewrite (rx_atom a s1 H1 f (S (length (s2 ++ t))) acc (s2 ++ t) Hf ltac:(lia)).
     cbn [map all_some]. destruct (node_of_atom a) as [n|]; [|reflexivity].
-    rewrite (IH s2 H2 Hcl) by lia.
+    rewrite (IH s2 H2) by lia.
     destruct (all_some (map node_of_atom atoms)) as [ns|]; [|reflexivity].
     cbn [omap rev]. rewrite <- app_assoc. reflexivity.
 Qed.
@@ -913,7 +951,8 @@ Proof.
       intros _. destruct (fmt_alts_err _ _ _ E) as (x & e' & Hin & Hx).
       destruct (bitem_fmt_err x e' Hx) as (_ & _ & Ha).
       rewrite (all_some_none alt_of _ x Hin Ha). reflexivity.
-    + unfold ebind. destruct (fmt_all bitem_fmt _) as [s|e1] eqn:E; [discriminate|].
+    + destruct (forallb bitem_multi (b_items b)); [discriminate|].
+      unfold ebind. destruct (fmt_all bitem_fmt _) as [s|e1] eqn:E; [discriminate|].
       intros _. destruct (fmt_all_err _ _ _ E) as (x & e' & Hin & Hx).
       destruct (bitem_fmt_err x e' Hx) as (_ & Hc & _).
       rewrite (all_some_none citem_of _ x Hin Hc). reflexivity.
@@ -923,13 +962,12 @@ Qed.
 (* THEOREM: the emitted string parses back to the intended structure    *)
 
 Theorem fmt_regex_parses_back cfg a :
-  closed_complements a = true ->
   match ast_fmt cfg a with
   | EOk s => parse_rx s = match rx_of_ast cfg a with Some r => RxOk r | None => RxErr end
   | EErr _ => rx_of_ast cfg a = None
   end.
 Proof.
-  intros Hcl. unfold ast_fmt, rx_of_ast, ebind.
+  unfold ast_fmt, rx_of_ast, ebind.
   destruct (fmt_all atom_fmt a) as [s|e] eqn:Hfmt.
   - unfold parse_rx.
     set (post := if anchor_end cfg then [c_bslash; c_z] else []).
@@ -939,7 +977,7 @@ Proof.
               | Some ns => RxOk (rev acc ++ ns ++ (if anchor_end cfg then [REndText] else []))
               | None => RxErr
               end).
-    { intros f acc Hf. rewrite (rx_atoms a s Hfmt Hcl f acc post Hf).
+    { intros f acc Hf. rewrite (rx_atoms a s Hfmt f acc post Hf).
       destruct (all_some (map node_of_atom a)) as [ns|]; [|reflexivity].
       subst post. destruct (anchor_end cfg).
       - cbn [length]. rewrite rx_loop_bslash.
